@@ -10,6 +10,7 @@ ids=${@:-$(ls /verif/seeded)}
 fail=0
 for id in $ids; do
   pid=$(echo $id | cut -d- -f1)
+  if grep -q '"obsolete_after_fix"' /verif/seeded/$id/meta.json 2>/dev/null; then echo "$id: obsolete (a later repair of /repo made this change harmless; see meta.json)"; continue; fi
   git -C $S/repo reset -q --hard; git -C $S/repo clean -fdq
   if ! git -C $S/repo apply /verif/seeded/$id/patch.diff 2>/dev/null; then
     echo "$id: PATCH-DOES-NOT-APPLY (the repaired tree moved on)"; continue; fi
